@@ -8,7 +8,11 @@
 global size_of usize == 8;   // 64-bit target (u8/u32 lengths widen losslessly to usize)
 
 // the error variants the extracted text builds
-pub enum IggyError { InvalidIdentifier, InvalidCommand, InvalidNumberEncoding, InvalidUtf8, EmptyMessagePayload, InvalidMessagePayloadLength, Other }
+pub enum IggyError {
+    InvalidIdentifier, InvalidCommand, InvalidNumberEncoding, InvalidUtf8, EmptyMessagePayload, InvalidMessagePayloadLength, Other,
+    // (added for unit codec_send: the variants built by the header-map codec and by SendMessages::validate)
+    InvalidHeaderKey, InvalidHeaderValue, InvalidMessagesCount, InvalidKeyValueLength, TooBigHeadersPayload, TooBigMessagePayload,
+}
 
 // IggyByteSize: a byte count (byte_unit::Byte inside). From<u64> / as_bytes_u64 / as_bytes_usize are mutually inverse
 // conversions of the same number (sdk/src/utils/byte_size.rs).
